@@ -445,6 +445,20 @@ def run_kernels(case, out):
 # ------------------------------------------------------------------ family constants
 
 
+class FBits(int):
+    """an f32 value: prints as the float, compares as its bit pattern (what the memory holds)"""
+
+    def __new__(cls, v):
+        import struct
+
+        o = super().__new__(cls, int.from_bytes(struct.pack("<f", float(v)), "little"))
+        o.text = f"{float(v):.1f}"
+        return o
+
+    def __str__(self):
+        return self.text
+
+
 def nested(vals, shape):
     if len(shape) == 1:
         return "[" + ", ".join(map(str, vals)) + "]"
@@ -459,6 +473,8 @@ def const_program(case):
     for x in shape:
         n *= x
     vals = [(v * case["mul"] + 1) % (100 if case["el"] == "i8" else 100000) for v in range(n)]
+    if case["el"] == "f32":
+        vals = [FBits(v) for v in vals]
     sh = "x".join(map(str, shape))
     el = case["el"]
     tsl = tsl_text(tb, steps, 0)
@@ -479,6 +495,8 @@ def const_program(case):
         gshape = [shape[0] * mult] + shape[1:]
         gn = n * mult
         gvals = [(v * case["mul"] + 1) % (100 if el == "i8" else 100000) for v in range(gn)]
+        if el == "f32":
+            gvals = [FBits(v) for v in gvals]
         gsh = "x".join(map(str, gshape))
         strides = [1] * len(shape)
         for i in range(len(shape) - 2, -1, -1):
@@ -691,7 +709,7 @@ def run_const(case, out):
         out["rejected"] = f"{r.stage}:{r.cls}"
         return out
     out["runs"] = out["zero_fault_runs"] = 1
-    eb = {"i8": 1, "i32": 4}[case["el"]]
+    eb = {"i8": 1, "i32": 4, "f32": 4}[case["el"]]
     t = compat.text(S)
     bad_view = view_consistency(S, absolute=case["kind"] != "global-subview")
     if bad_view:
@@ -724,7 +742,7 @@ def gen_case(rng, tier):
         rank = rng.choice([1, 2, 2, 3])
         depth = [rng.choice([1, 2, 2, 3]) for _ in range(rank)]
         tb = [[rng.choice([1, 2, 2, 3, 4]) for _ in range(depth[d])] for d in range(rank)]
-        return {"fam": "const", "tb": tb, "steps": gen_steps(rng, tb, pad=False), "steps2": gen_steps(rng, tb, pad=False), "el": rng.choice(["i8", "i32"]),
+        return {"fam": "const", "tb": tb, "steps": gen_steps(rng, tb, pad=False), "steps2": gen_steps(rng, tb, pad=False), "el": rng.choice(["i8", "i32", "f32"]),
                 "mult": rng.choice([1, 2, 3]), "off0": rng.choice([0, 0, 1, 2]),
                 "kind": rng.choice(["const", "const", "const-two-layouts", "const-chain", "const-subview", "global-subview", "global-subview", "global", "global", "global-two-gets", "global-two-casts", "global-two-funcs", "global-two-layouts", "global-chain", "global-msc-two-layouts"]), "mul": rng.choice([1, 3, 7])}
     accum = rng.choice([0, 0, 0, 0.3])
